@@ -13,6 +13,18 @@ def sh(cmd, timeout=3000):
     r = subprocess.run(cmd, shell=True, capture_output=True, text=True, timeout=timeout)
     return r.returncode, r.stdout + r.stderr
 
+def keep_evidence(fn):
+    """Checks run against a patched /repo must not leave their evidence behind."""
+    import tempfile, shutil
+    bak = tempfile.mkdtemp(prefix="EVIDENCE_BACKUP-")
+    shutil.copytree("/verif/evidence", os.path.join(bak, "evidence"))
+    try:
+        return fn()
+    finally:
+        shutil.rmtree("/verif/evidence", ignore_errors=True)
+        shutil.copytree(os.path.join(bak, "evidence"), "/verif/evidence")
+        shutil.rmtree(bak, ignore_errors=True)
+
 def main():
     pref = sys.argv[1:]
     names = sorted(os.listdir("/verif/seeded"))
@@ -52,4 +64,4 @@ def main():
     print("missed:", missed)
 
 if __name__ == "__main__":
-    main()
+    keep_evidence(main)
